@@ -297,6 +297,43 @@ func RegisteredTypes() []gopacket.LayerType {
 	return out
 }
 
+// HeaderOnly cuts a fixture right behind the header of one of its layers accepted by want, so that this layer
+// has an empty payload (the boundary where append(Contents, Payload...) returns Contents itself, length fields
+// point at nothing, and the next decoder gets zero bytes).  Returns nil if no layer qualifies.
+func HeaderOnly(r *vh.Rand, f Fixture, want func(gopacket.Layer) bool) ([]byte, string) {
+	data := make([]byte, len(f.Data))
+	copy(data, f.Data)
+	var p gopacket.Packet
+	func() {
+		defer func() { recover() }()
+		p = gopacket.NewPacket(data, f.First, gopacket.DecodeOptions{NoCopy: true, DecodeStreamsAsDatagrams: true})
+		p.Layers()
+	}()
+	if p == nil {
+		return nil, ""
+	}
+	type cand struct {
+		end  int
+		name string
+	}
+	var cs []cand
+	for _, l := range p.Layers() {
+		c := l.LayerContents()
+		if len(c) == 0 || cap(c) > cap(data) || !want(l) {
+			continue
+		}
+		off := cap(data) - cap(c)
+		if off >= 0 && off+len(c) <= len(data) {
+			cs = append(cs, cand{off + len(c), l.LayerType().String()})
+		}
+	}
+	if len(cs) == 0 {
+		return nil, ""
+	}
+	c := cs[r.Intn(len(cs))]
+	return append([]byte(nil), data[:c.end]...), "hdronly(" + c.name + ")"
+}
+
 // LayerAware mutates inside the header of one decoded layer of a fixture (so that deep layers get as
 // much attention as the link layer), with protocol-specific shapes for name compression pointers,
 // option lists and length fields.  Returns nil if the fixture has no usable layer.
